@@ -417,7 +417,7 @@ pub fn gen_io(rng: &mut Rng, o: &IoOpts) -> Scenario {
                         files.push(FileSpec { path: format!("{}/{}/dangling.c", pdir, d), kind: FileKind::Symlink("nowhere.c".into()) });
                         files.push(FileSpec { path: format!("{}/{}/emptydir", pdir, d), kind: FileKind::Dir });
                     }
-                    if rng.chance(20) {
+                    if rng.chance(40) {
                         // a link to a regular file kept OUTSIDE the declared directory (a selected
                         // profile, a file in a content-addressed store): it counts as a file of
                         // the directory, with the content and time stamp of what it points to
@@ -483,8 +483,9 @@ pub fn gen_io(rng: &mut Rng, o: &IoOpts) -> Scenario {
             if rng.chance(o.cmd_pct) {
                 // the same command text in every project directory, different values per directory
                 let key = if rng.chance(60) { "ver".to_string() } else { format!("k{}", name) };
-                let initial = match rng.weighted(&[12, 4, 84]) {
+                let initial = match rng.weighted(&[12, 4, 69, 15]) {
                     0 => "blob \\xff end\n".to_string(),
+                    3 => format!("{} steady\n", key),
                     // more than a pipe buffer holds
                     1 => format!("!big:{}:{} {} 1\n", rng.range(66_000, 200_000), pdir, key),
                     _ => format!("{} {} 1\n", pdir, key),
